@@ -89,12 +89,18 @@ class World:
         self.produced = []                     # (id, call_no) in order
         MEM.avail = 16 * GB
 
+        # 'unstorable': example 1 cannot be serialised (it carries a generator);
+        # every access to it is refused, all other examples are unaffected
+        self.bad = 1 if upstream == 'unstorable' and n > 1 else None
+
         def up(x):
             c = next(self.counter)
             self.produced.append((x, c))
+            if x == self.bad:
+                return ('v', x, c, [c], (i for i in ()), 'shared-label')
             # a tuple example with a mutable member: what the consumer does to
             # a value it was handed must not reach the cached copy
-            return ('v', x, c, [c])
+            return ('v', x, c, [c], 'shared-label')[:4 if upstream != 'unstorable' else 5]
         src = ld.new(dict(zip(self.keys, range(n))))
         base = src.map(up)
         if upstream == 'map-slice':
@@ -168,6 +174,11 @@ def run_history(ld, n, hist, cross_at, res, upstream='map'):
         try:
             got = w.do(step)
         except BaseException as e:
+            if w.bad is not None and type(e).__name__ in ('TypeError', 'PicklingError',
+                                                          'AttributeError'):
+                # the unstorable example was touched: refused, nothing judged
+                res.count('unstorable_example_refusals')
+                continue
             res.violation('access-raised', {**case, 'step': s}, exc_sig(e),
                           sig={'access': step[0]})
             break
@@ -176,7 +187,17 @@ def run_history(ld, n, hist, cross_at, res, upstream='map'):
         bad = False
         for want_id, v in got:
             requested[want_id] += 1
-            if not (isinstance(v, tuple) and len(v) == 4 and v[0] == 'v'):
+            if want_id == w.bad and w.bad is not None:
+                # handed out without being stored (caching switched off by the
+                # memory threshold): only its identity is checked
+                if not (isinstance(v, tuple) and v[:2] == ('v', want_id)):
+                    res.violation('wrong-example', {**case, 'step': s},
+                                  {'wanted': want_id, 'got': repr(v)[:100]}, sig=sig)
+                    bad = True
+                    break
+                continue
+            if not (isinstance(v, tuple) and len(v) == (5 if w.bad is not None else 4)
+                    and v[0] == 'v'):
                 res.violation('invented', {**case, 'step': s}, {'value': v}, sig=sig)
                 bad = True
                 break
@@ -228,7 +249,7 @@ def run_history(ld, n, hist, cross_at, res, upstream='map'):
         # compute-once for everything that was allowed to be cached
         cnt = collections.Counter(i for i, _ in w.produced)
         for i, c in cnt.items():
-            cacheable = w.frozen is None or i in w.frozen
+            cacheable = (w.frozen is None or i in w.frozen) and i != w.bad
             if cacheable and c > 1:
                 res.violation('recomputed', {**case, 'step': s},
                               {'id': i, 'computations': c}, sig=sig)
@@ -435,7 +456,7 @@ def run_shard(spec, res):
             hist = tuple(rng.choice(steps) for _ in range(40))
             cross = rng.choice([None, 0, 3, 10, 25])
             run_history(ld, 6, hist, cross, res,
-                        upstream=rng.choice(('map', 'map-slice')))
+                        upstream=rng.choice(('map', 'map-slice', 'unstorable')))
         res.sample({'n': 6, 'history': [list(s) for s in hist[:8]], 'cross_at': cross})
     else:
         for n in range(0, 8):
